@@ -99,8 +99,8 @@ def check_one(rep: common.Report, label: str, tp: Any, expected: Dict[bool, set]
 
 CLASH_SRC = '''
 from dataclasses import dataclass
-from typing import Annotated, Generic, List, NamedTuple, NewType, Optional, TypeVar, Union
-from apischema import deserializer, serializer, type_name
+from typing import Annotated, Generic, List, Literal, NamedTuple, NewType, Optional, TypeVar, Union
+from apischema import deserializer, discriminator, serializer, type_name
 
 @type_name("Same")
 @dataclass
@@ -220,6 +220,64 @@ def node_to_id(node: Node) -> int:
     return node.ident
 
 
+@type_name("Ticket")
+@dataclass
+class TicketIn:
+    title: str
+    state: Literal["new", "open"]
+
+
+@type_name("Ticket")
+@dataclass
+class TicketOut:
+    title: str
+    state: Literal["new", "open", "closed"]      # one more value: the enum LIST is longer on the read side
+
+
+@type_name("Owner")
+@dataclass
+class OwnerIn:
+    ident: Union[int, str]
+
+
+@type_name("Owner")
+@dataclass
+class OwnerOut:
+    ident: Union[int, str, None]                 # one more JSON type
+
+
+@type_name("Same2")
+@dataclass
+class SameIn:
+    v: List[int]
+
+
+@type_name("Same2")
+@dataclass
+class SameOut:
+    v: List[int]
+
+
+@dataclass
+class PCat:
+    name: str
+
+
+@dataclass
+class PDog:
+    name: str
+
+
+@dataclass
+class PetsOld:
+    pet: Annotated[Union[PCat, PDog], discriminator("type")]
+
+
+@dataclass
+class PetsNew:
+    pet: Annotated[PCat | PDog, discriminator("type")]
+
+
 @type_name(lambda tp, *args: "Fac_" + tp.__name__)
 @dataclass
 class ByFactory:
@@ -306,6 +364,40 @@ def naming_cases(rep: common.Report) -> int:
                 rep.violation(f"{fn.__name__}(List[Edge], conversion={'node_to_id' if conv else None}, all_refs={all_refs}): $defs = {sorted(got)} / "
                               f"definitions_schema = {sorted(dgot)}, expected {sorted(want)} (a dynamic conversion is local: it does not reach "
                               "the fields of the NamedTuple)", {})
+    # one name for a deserialized and a serialized type: refused when the two schemas differ (even by the LENGTH of
+    # a list only), merged when they are the same
+    for d, s, clash in ((mod.TicketIn, mod.TicketOut, True), (mod.TicketOut, mod.TicketIn, True), (mod.OwnerIn, mod.OwnerOut, True),
+                        (mod.OwnerOut, mod.OwnerIn, True), (mod.SameIn, mod.SameOut, False)):
+        n += 1
+        try:
+            res = definitions_schema(deserialization=[d], serialization=[s], all_refs=True)
+            if clash:
+                rep.violation(f"definitions_schema(deserialization=[{d.__name__}], serialization=[{s.__name__}]): two different schemas "
+                              f"under one name were merged instead of refused", {"schema": res})
+        except (ValueError, TypeError):      # the refusal is a TypeError naming the reference
+            if not clash:
+                rep.violation(f"definitions_schema(deserialization=[{d.__name__}], serialization=[{s.__name__}]): the same schema under "
+                              "one name on both sides was refused", {})
+        except Exception as exc:
+            rep.violation(f"definitions_schema(deserialization=[{d.__name__}], serialization=[{s.__name__}]) raised {type(exc).__name__}", {})
+    # `X | Y` is the same union as Union[X, Y]: same schema, same (closed) definitions
+    for fn in (deserialization_schema, serialization_schema):
+        for all_refs in (False, True):
+            n += 1
+            try:
+                old, new = fn(mod.PetsOld, all_refs=all_refs), fn(mod.PetsNew, all_refs=all_refs)
+            except Exception as exc:
+                rep.violation(f"{fn.__name__}(PetsNew / PetsOld, all_refs={all_refs}) raised {type(exc).__name__}: {exc}", {})
+                continue
+            strip = lambda sch: json.loads(json.dumps(sch).replace("PetsNew", "Pets").replace("PetsOld", "Pets"))
+            refs = []
+            collect_refs(new, refs)
+            for r in refs:
+                if r[len("#/$defs/"):] not in new.get("$defs", {}):
+                    rep.violation(f"{fn.__name__}(PetsNew, all_refs={all_refs}): dangling reference {r} (PEP 604 discriminated union)", {"schema": new})
+            if strip(old) != strip(new):
+                rep.violation(f"{fn.__name__}: Annotated[PCat | PDog, discriminator] and Annotated[Union[PCat, PDog], discriminator] give "
+                              f"different schemas (all_refs={all_refs})", {"union": old, "pep604": new})
     for fn in (deserialization_schema, serialization_schema):
         # two distinct types under one name are refused: unrelated classes, two Annotated aliases over different
         # types, two parametrisations of one generic class
